@@ -36,6 +36,11 @@ Pre(op, a)    == [k |-> "u", op |-> op, a |-> a]    \* prefix operator
 Post(op, a)   == [k |-> "p", op |-> op, a |-> a]    \* postfix ++ --
 Bin(op, l, r) == [k |-> "b", op |-> op, l |-> l, r |-> r]
 Cond(c, t, e) == [k |-> "q", c |-> c, t |-> t, e |-> e]
+Group(a)      == [k |-> "g", a |-> a]               \* ( a ): parentheses the grammar does not need
+
+\* C 6.5.1p5: a parenthesized expression is an lvalue if the unparenthesized one is
+RECURSIVE Ungroup(_)
+Ungroup(e) == IF e.k = "g" THEN Ungroup(e.a) ELSE e
 
 PrefixOps  == {"+", "-", "~", "!", "++", "--"}
 PostfixOps == {"++", "--"}
@@ -199,13 +204,14 @@ RECURSIVE Names(_), Writes(_)
 Names(e) ==
   CASE e.k = "c" -> {}
     [] e.k = "v" -> {e.n}
-    [] e.k \in {"u", "p"} -> Names(e.a)
+    [] e.k \in {"u", "p", "g"} -> Names(e.a)
     [] e.k = "b" -> Names(e.l) \cup Names(e.r)
     [] e.k = "q" -> Names(e.c) \cup Names(e.t) \cup Names(e.e)
 Writes(e) ==
   CASE e.k \in {"c", "v"} -> {}
     [] e.k = "u" -> IF e.op \in {"++", "--"} THEN Names(e.a) ELSE Writes(e.a)
     [] e.k = "p" -> Names(e.a)
+    [] e.k = "g" -> Writes(e.a)
     [] e.k = "b" -> IF e.op \in AssignOps THEN Names(e.l) \cup Writes(e.r) ELSE Writes(e.l) \cup Writes(e.r)
     [] e.k = "q" -> Writes(e.c) \cup Writes(e.t) \cup Writes(e.e)
 
@@ -223,6 +229,7 @@ Subst(e, n, w) ==
     [] e.k = "v" -> IF e.n = n THEN w ELSE e
     [] e.k = "u" -> Pre(e.op, Subst(e.a, n, w))
     [] e.k = "p" -> Post(e.op, Subst(e.a, n, w))
+    [] e.k = "g" -> Group(Subst(e.a, n, w))
     [] e.k = "b" -> Bin(e.op, Subst(e.l, n, w), Subst(e.r, n, w))
     [] e.k = "q" -> Cond(Subst(e.c, n, w), Subst(e.t, n, w), Subst(e.e, n, w))
 
@@ -241,9 +248,9 @@ RECURSIVE EvalM(_, _, _)
 
 \* ++ and --: operand must be a variable (C: a modifiable lvalue)
 IncDec(e, env, prefix, m) ==
-  IF e.a.k = "q" THEN {U(env)}         \* a conditional as an lvalue is an extension C does not have
-  ELSE IF e.a.k # "v" THEN {E("NotAssignable", env)}
-  ELSE LET n == e.a.n
+  IF Ungroup(e.a).k = "q" THEN {U(env)}         \* a conditional as an lvalue is an extension C does not have
+  ELSE IF Ungroup(e.a).k # "v" THEN {E("NotAssignable", env)}
+  ELSE LET n == Ungroup(e.a).n
            Step(o) == LET new == IF e.op = "++" THEN Add(o.v, One) ELSE Sub(o.v, One)
                       IN IF InRange64(new)
                          THEN {V(IF prefix THEN new ELSE o.v, [o.env EXCEPT ![n] = NumCell(new)])}
@@ -251,9 +258,9 @@ IncDec(e, env, prefix, m) ==
        IN Then(Read(n, env, m), Step)
 
 Assign(e, env, m) ==
-  IF e.l.k = "q" THEN {U(env)}
-  ELSE IF e.l.k # "v" THEN {E("NotAssignable", env)}
-  ELSE LET n == e.l.n
+  IF Ungroup(e.l).k = "q" THEN {U(env)}
+  ELSE IF Ungroup(e.l).k # "v" THEN {E("NotAssignable", env)}
+  ELSE LET n == Ungroup(e.l).n
        IN IF n \in Writes(e.r) THEN {U(env)}            \* two unsequenced side effects on n
           ELSE LET Store(o) == {V(o.v, [o.env EXCEPT ![n] = NumCell(o.v)])}
                    Compound(ro) ==
@@ -268,6 +275,7 @@ EvalM(e, env, m) ==
     [] e.k = "u" -> IF e.op \in {"++", "--"} THEN IncDec(e, env, TRUE, m)
                     ELSE LET F(o) == ApplyPre(e.op, o.v, o.env) IN Then(EvalM(e.a, env, m), F)
     [] e.k = "p" -> IncDec(e, env, FALSE, m)
+    [] e.k = "g" -> EvalM(e.a, env, m)
     [] e.k = "q" -> LET F(o) == IF IsZero(o.v) THEN EvalM(e.e, o.env, m) ELSE EvalM(e.t, o.env, m)
                     IN Then(EvalM(e.c, env, m), F)
     [] e.k = "b" ->
@@ -294,7 +302,7 @@ RECURSIVE ConstsOK(_)
 ConstsOK(e) ==
   CASE e.k = "c" -> InRange64(e.v) /\ ~e.v.n
     [] e.k = "v" -> TRUE
-    [] e.k \in {"u", "p"} -> ConstsOK(e.a)
+    [] e.k \in {"u", "p", "g"} -> ConstsOK(e.a)
     [] e.k = "b" -> ConstsOK(e.l) /\ ConstsOK(e.r)
     [] e.k = "q" -> ConstsOK(e.c) /\ ConstsOK(e.t) /\ ConstsOK(e.e)
 SyntaxErr(env) == [t |-> "s", v |-> Zero, c |-> "ConstantOutOfRange", env |-> env]
@@ -338,7 +346,7 @@ BinPrec(op) ==
 \* grammar level of the outermost construct of e: 15 primary, 14 postfix,
 \* 13 unary, 12..3 binary, 2 conditional, 1 assignment
 Prec(e) ==
-  CASE e.k \in {"c", "v"} -> 15
+  CASE e.k \in {"c", "v", "g"} -> 15
     [] e.k = "p" -> 14
     [] e.k = "u" -> 13
     [] e.k = "b" -> BinPrec(e.op)
@@ -351,6 +359,7 @@ Wrap(e, min) == IF Prec(e) >= min THEN Toks(e) ELSE <<"(">> \o Toks(e) \o <<")">
 Toks(e) ==
   CASE e.k = "c" -> <<ConstText(e)>>
     [] e.k = "v" -> <<e.n>>
+    [] e.k = "g" -> <<"(">> \o Toks(e.a) \o <<")">>
     [] e.k = "u" -> <<e.op>> \o Wrap(e.a, 13)                          \* unary-operator cast-expression
     [] e.k = "p" -> Wrap(e.a, 14) \o <<e.op>>                          \* postfix-expression ++
     [] e.k = "q" -> Wrap(e.c, 3) \o <<"?">> \o Wrap(e.t, 1) \o <<":">> \o Wrap(e.e, 2)
@@ -361,12 +370,17 @@ Toks(e) ==
 
 IsOperatorTok(t) == t \in PrefixOps \cup BinaryOps \cup {"?", ":"}
 
-\* tokens to text.  mode "s": one space between tokens; mode "t": no space
-\* except between two adjacent operators (which could fuse: "- -1", "x++ + 1")
+\* tokens to text (white space between tokens is insignificant, C 6.4p3).
+\*  mode "s": one space between tokens;
+\*  mode "t": no space except between two adjacent operators (which could fuse:
+\*            "- -1", "x++ + 1");
+\*  mode "w": tabs, newlines and runs of blanks between tokens and around the text.
+WS == <<"\t", "\n", "  ", " \t ">>
 RECURSIVE JoinFrom(_, _, _)
 JoinFrom(ts, i, mode) ==
-  IF i > Len(ts) THEN ""
-  ELSE (IF i = 1 THEN ""
+  IF i > Len(ts) THEN (IF mode = "w" THEN "\n " ELSE "")
+  ELSE (IF i = 1 THEN (IF mode = "w" THEN " \t" ELSE "")
+        ELSE IF mode = "w" THEN WS[(i % 4) + 1]
         ELSE IF mode = "s" \/ (IsOperatorTok(ts[i - 1]) /\ IsOperatorTok(ts[i])) THEN " "
         ELSE "") \o ts[i] \o JoinFrom(ts, i + 1, mode)
 Text(e, mode) == JoinFrom(Toks(e), 1, mode)
@@ -440,6 +454,7 @@ RECURSIVE Skeleton(_)
 Skeleton(e) ==
   CASE e.k = "c" -> [k |-> "t", t |-> ConstText(e)]
     [] e.k = "v" -> [k |-> "t", t |-> e.n]
+    [] e.k = "g" -> Skeleton(e.a)
     [] e.k = "u" -> Pre(e.op, Skeleton(e.a))
     [] e.k = "p" -> Post(e.op, Skeleton(e.a))
     [] e.k = "b" -> Bin(e.op, Skeleton(e.l), Skeleton(e.r))
